@@ -314,7 +314,23 @@ func runOrch(r *prng.R, s *out.Sink, tier string) {
 				topic := fmt.Sprintf("topic-%d", r.Intn(3))
 				k1 := sha([]byte(topic))
 				k2 := sha(k1)
+				// the way this call ends is drawn first: on the paths on which the caller gives up, every second time the session
+				// ends because its deadline passes (context.DeadlineExceeded) instead of by an explicit cancel (context.Canceled)
+				path := r.Intn(7)
+				byDeadline := (path == 1 || path == 3 || path == 4) && r.Intn(2) == 0
 				ctx, cancel := context.WithCancel(context.Background())
+				if byDeadline {
+					cancel()
+					ctx, cancel = context.WithTimeout(context.Background(), 150*time.Millisecond)
+					s.Count("sign/ends-by-deadline")
+				}
+				giveUp := func() {
+					if byDeadline {
+						<-ctx.Done()
+					} else {
+						cancel()
+					}
+				}
 				done := make(chan error, 1)
 				go func() { _, err := rg.scheme.Sign(ctx, sha([]byte("digest")), topic); done <- err }()
 				g1 := rg.waitGate(k1, used)
@@ -333,7 +349,6 @@ func runOrch(r *prng.R, s *out.Sink, tier string) {
 					}
 					act("signEnter", sid, k1, false)
 				}
-				path := r.Intn(7)
 				s.Count(fmt.Sprintf("sign/path-%d", path))
 				signer := func() *scriptedBackend { rg.schemeRig.mu.Lock(); defer rg.schemeRig.mu.Unlock(); return rg.signer }
 				switch path {
@@ -342,11 +357,32 @@ func runOrch(r *prng.R, s *out.Sink, tier string) {
 					await(done)
 					act("signExit", id, k1, true)
 				case 1: // caller gives up while synchronising; the callback passes afterwards (late)
-					cancel()
+					giveUp()
 					await(done)
 					act("signExit", id, k1, true)
 					g1.release <- true
-					awaitCB(g1.done)
+					// the session is over: its late callback must find that out and return without registering anything. If
+					// it does not return, look at what it left in the tables of the finished session.
+					select {
+					case <-g1.done:
+					case <-time.After(2 * time.Second):
+						if snap := rg.snapshot(kn); strings.Contains(snap, "rbc=") && !strings.Contains(snap, "rbc=-") {
+							how := "was cancelled"
+							if byDeadline {
+								how = "ended because its deadline passed"
+							}
+							s.Violate("C12", fmt.Sprintf("a Sign call that %s had returned; its first synchronisation then completed (late) and the callback registered handlers for the finished session and went on: %s", how, snap), strings.Join(hist, "\n"))
+							for _, g := range rg.allGates() {
+								select {
+								case g.release <- false:
+								default:
+								}
+							}
+							orchStop = true
+							panic(errAbortHistory)
+						}
+						awaitCB(g1.done)
+					}
 					act("signPrepare", id, k1, true)
 				case 2: // stored share data unusable: preparation fails
 					rg.schemeRig.mu.Lock()
@@ -374,14 +410,14 @@ func runOrch(r *prng.R, s *out.Sink, tier string) {
 					act("regSync2", id, k2, true)
 					switch path {
 					case 3: // caller gives up during the second synchronisation, which then fails
-						cancel()
+						giveUp()
 						await(done)
 						act("signExit", id, k1, true)
 						g2.release <- false
 						awaitCB(g1.done)
 						act("unregSync2", id, k2, true)
 					case 4: // caller gives up; the second synchronisation passes late
-						cancel()
+						giveUp()
 						await(done)
 						act("signExit", id, k1, true)
 						g2.release <- true
